@@ -617,7 +617,7 @@ class DB:
             return [lookup_hashX(*prevout) for prevout in prevouts]
 
         def lookup_utxos(hashX_pairs):
-            def lookup_utxo(hashX, suffix):
+            def lookup_utxo(tx_hash, hashX, suffix):
                 if not hashX:
                     # This can happen when the daemon is a block ahead
                     # of us and has mempool txs spending outputs from
@@ -631,9 +631,16 @@ class DB:
                     # This can happen if the DB was updated between
                     # getting the hashXs and getting the UTXOs
                     return None
+                # A reorg since getting the hashXs can have given the tx number, and so
+                # the key, to an output of another transaction
+                tx_num, = unpack_le_uint64(suffix[-5:] + bytes(3))
+                if self.fs_tx_hash(tx_num)[0] != tx_hash:
+                    return None
                 value, = unpack_le_uint64(db_value)
                 return hashX, value
-            return [lookup_utxo(*hashX_pair) for hashX_pair in hashX_pairs]
+            return [lookup_utxo(tx_hash, *hashX_pair)
+                    for (tx_hash, _tx_idx), hashX_pair in zip(prevouts, hashX_pairs)]
 
+        prevouts = list(prevouts)
         hashX_pairs = await run_in_thread(lookup_hashXs)
         return await run_in_thread(lookup_utxos, hashX_pairs)
